@@ -2,4 +2,5 @@ SPECIFICATION Spec
 CONSTANTS MaxLines = 4
           Shapes <- ShapesCore
           Endings <- EndingsLFCR
+          Policies <- UniformPolicies
 INVARIANTS Statement
